@@ -331,6 +331,9 @@ pub fn generate_c08(tier: &str, seed: u64, out: &mut Out) {
         vec![("A".into(), "1".into())],
         vec![("A".into(), "1".into()), ("B".into(), "2".into()), ("A".into(), "3".into())],
         vec![("C".into(), "0".into()), ("B".into(), "2".into()), ("B".into(), "4".into())],
+        // names that differ from the operands only in letter case are different fields
+        vec![("a".into(), "1".into())],
+        vec![("a".into(), "1".into()), ("B".into(), "2".into()), ("b".into(), "3".into())],
     ];
     let maxlen = if thorough { 4 } else { 3 };
     for h in lists_upto(&opsyms, maxlen) {
